@@ -254,7 +254,10 @@ class C07(PropBase):
             "{0,4,7,8,mid,2^32-4} for frame-data and FPO (x allocates_base_pointer x has-grand-callee); random longer programs; random "
             "overlapping/duplicate/inconsistent record sets; statement-sequence programs x callee validity sets for (B); for (F) 14 frame "
             "lists x FPO / frame-data records x (return slot holds the callee's own eip: direct recursion / does not) x callee sp "
-            "outside the stack x lookup at eip-1. Non-trivial = the walk succeeded. distinct = distinct case lines")
+            "outside the stack x lookup at eip-1; (G) WHOLE x86 walk_stack from a context frame over generated stacks (1-5 activations of 1-3 "
+            "functions, each with an FPO record with/without base pointer or a frame-data record with the .raSearch program, with/without FUNC "
+            "record, recursion, image cut short, outermost return address below 4096): the leading call-frame-info frames are compared with "
+            "the model's win_walk and judged by a frame-by-frame reference. Non-trivial = the walk succeeded / produced a frame. distinct = distinct case lines")
     trusted_base = [
         "Coq 8.16.1 kernel (vm_compute only in Examples / witness lemmas)",
         "model C07/Model.v written by hand from walker.rs (eval_win_expr, FPO), parser.rs (record acceptance on parsed fields, insert_win_stack_info), mod.rs walk_frame; reuses C06/Model.v and C08/Model.v; tied to the code by the correspondence run AND (round 5) proved equal, function by function, to the Gallina compiled from walker.rs (c07_source_is_model)",
@@ -289,6 +292,8 @@ class C07(PropBase):
                 "consistency, rest == \"1\", field mapping) equals the record constructor and C09's byte-level recogniser (c07_line_source); the two usual MSVC frame-data programs "
                 "evaluated symbolically for all environments (c07_standard_programs); every well-formed x86 stack of any depth through any mix of FPO and frame-data (.raSearch "
                 "program) records is walked to exactly its chain (c07_win_recovers_chain). "
+                "Whole walks through all three kinds of record in one stack: c07_win_recovers_chain_bp; win_walk is compared with the real walk_stack on generated stacks (front-end G). "
+                "Only the token sequence and the presence of '@' in the program text matter: c07_program_text_dependence. "
                 "Model tied to the code by exhaustive programs to length 4, extreme size fields, overlapping record sets, through a mock FrameWalker, "
                 "through x86 walk_stack from a context frame and from frame lists, debug and release; an independent Python reference judges "
                 "every implementation answer.",
